@@ -6,7 +6,7 @@ import re
 from tools.vlib import *
 
 PID = "C08"
-READY = False
+READY = True
 MANIFEST = {
     "level_text": "Lean 4 theorems, for every byte string and every way of cutting it into update() calls (no bound on length or "
                   "number of pieces): the transcribed streaming hasher (state words, 64-byte buffer, 64-bit bit counter, memcpy-chunked "
